@@ -40,7 +40,7 @@ def stubs():
         tr.emit(f"if (com_fault[{a}]) {{ {tr.lv(Loc(n.discr, d.idxs))} = {n.vindex('Err')}; {tr.lv(Loc(n.variants[n.vindex('Err')][1].fields[0], d.idxs))} = (unsigned char)(60 + {a}); }} else {{")
         tr.emit(f"{tr.lv(Loc(n.discr, d.idxs))} = {n.vindex('Ok')}; {tr.lv(Loc(ok.discr, d.idxs))} = com_exists[{a}] ? {ok.vindex('Some')} : {ok.vindex('None')};")
         tr.emit(f"{tr.lv(Loc(info.f('balance'), d.idxs))} = com_balance[{a}]; {tr.lv(Loc(info.f('nonce'), d.idxs))} = com_nonce[{a}]; "
-                f"{tr.lv(Loc(info.f('code_hash'), d.idxs))} = com_code_hash[{a}]; {tr.lv(Loc(info.f('code').discr, d.idxs))} = 0; }}")
+                f"{tr.lv(Loc(info.f('code_hash'), d.idxs))} = com_code_hash[{a}]; {tr.lv(Loc(info.f('code').discr, d.idxs))} = 1; {tr.lv(Loc(info.f('code').variants[1][1].fields[0].fields[0], d.idxs))} = (unsigned char)(40 + {a}); }}")
 
     def commit(tr, c):
         st = c.args[1]
@@ -184,6 +184,8 @@ def build_h1():
                       f"{H.lv(cacc, 'info.nonce', [a])} == (com_exists[{a}] ? com_nonce[{a}] : 0) && {H.lv(cacc, 'info.code_hash', [a])} == (com_exists[{a}] ? com_code_hash[{a}] : 1) && "
                       f"({H.lv(cacc, 'status', [a])} & 4) != 0)",
                       f"fee recipient {a}: exactly one checked-add credit on the COMMITTED account (absent = default account), other fields preserved, marked touched")
+            H.assert_(f"!({committed} && {isb} && com_exists[{a}]) || ({H.lv(cacc, 'info.code.d', [a])} == 1 && {H.lv(cacc, 'info.code.Some.0.id', [a])} == (unsigned char)(40 + {a}))",
+                      f"fee recipient {a}: the inline bytecode the committed account carries (e.g. an in-block EIP-7702 designator) survives the credit")
         H.cover(f"{fallback} && {nonce} > {expect}", "nonce too high")
         H.cover(f"{committed} && has_reward", "committed with a deferred reward")
         H.cover(f"{d} == {err}", "database fault")
